@@ -4,6 +4,7 @@ import Csvq.Model.Escape
 import Csvq.Model.Scanner
 import Csvq.Model.UnaryPrint
 import Csvq.Model.OpExpr
+import Csvq.Model.Clause
 namespace Csvq.Drive
 open Csvq Csvq.Proto Csvq.Esc Csvq.Scan Csvq.UPrint
 
@@ -85,7 +86,14 @@ def opWords : List (String × Tok Term) := [
   (">=", .sym .COMPARISON_OP 5), ("<>", .sym .COMPARISON_OP 6), ("!=", .sym .COMPARISON_OP 7), ("LIKE", .sym .LIKE 0),
   ("||", .sym .STRING_OP 0), ("+", .sym .c_plus 0), ("-", .sym .c_minus 0), ("*", .sym .c_star 0), ("/", .sym .c_slash 0),
   ("%", .sym .c_percent 0), ("!", .sym .c_bang 0), ("IS", .sym .IS 0),
-  ("NULL", .lit 0), ("TRUE", .lit 1), ("FALSE", .lit 2), ("UNKNOWN", .lit 3)]
+  ("NULL", .lit 0), ("TRUE", .lit 1), ("FALSE", .lit 2), ("UNKNOWN", .lit 3),
+  ("SELECT", .kw .select), ("DISTINCT", .kw .distinct), ("FROM", .kw .from), ("WHERE", .kw .where), ("GROUP", .kw .group),
+  ("BY", .kw .by), ("HAVING", .kw .having), ("ORDER", .kw .order), ("ASC", .kw .asc), ("DESC", .kw .desc), ("NULLS", .kw .nulls),
+  ("FIRST", .kw .first), ("LAST", .kw .last), ("LIMIT", .kw .limit), ("OFFSET", .kw .offset), ("PERCENT", .kw .percent),
+  ("ROW", .kw .row), ("ROWS", .kw .rows), ("ONLY", .kw .only), ("WITH", .kw .with), ("TIES", .kw .ties), ("AS", .kw .as),
+  (",", .kw .comma), (".", .kw .dot), ("JOIN", .kw .join), ("INNER", .kw .inner), ("OUTER", .kw .outer), ("LEFT", .kw .left),
+  ("RIGHT", .kw .right), ("FULL", .kw .full), ("CROSS", .kw .cross), ("NATURAL", .kw .natural), ("ON", .kw .on), ("USING", .kw .using),
+  ("UNION", .kw .union), ("EXCEPT", .kw .except), ("INTERSECT", .kw .intersect), ("ALL", .kw .all)]
 
 open Csvq.OpExpr Csvq.Gen.Precedence in
 def wordToTok (w : String) : Option (Tok Term) :=
@@ -120,6 +128,16 @@ def opx (words : List String) : String :=
     | none => "ERR"
     | some e => showShape e ++ " " ++ String.intercalate "," ((print genTable e).map tokToWord)
 
+open Csvq.OpExpr Csvq.Clause Csvq.Gen.Precedence in
+/-- `c18.sel`: the printed tokens of the parsed SELECT, or ERR -/
+def selx (words : List String) : String :=
+  match words.mapM wordToTok with
+  | none => "bad-op"
+  | some ts =>
+    match parseSelect genTable ts with
+    | some (s, []) => String.intercalate " " ((printSelect genTable s).map tokToWord)
+    | _ => "ERR"
+
 def c18 (cmd : String) (args : List String) : String :=
   let bad := "bad-op"
   match cmd, args with
@@ -140,6 +158,7 @@ def c18 (cmd : String) (args : List String) : String :=
     | some m, some s => showResult (scan poolClasses m s)
     | _, _ => bad
   | "opx", l => opx l
+  | "sel", l => selx l
   | "unary", l =>
     match parseUExpr l with
     | some e => hexChars e.print ++ " " ++ (if hasCommentOpener e.print then "1" else "0")
